@@ -92,7 +92,7 @@ func init() {
 			return fs
 		},
 		Gen: func(t *T) {
-			for i := 0; i < t.Scale(1200, 40000); i++ {
+			for i := 0; i < t.Scale(1200, 20000); i++ {
 				n := []int{0, 1, 100, 4096, 8191, 8192, 8193, 8200, 9000, 12000, 20000, 70000}[t.R.Intn(12)]
 				limit := []int{0, 0, 50, 4096, 8192, 8500, 10000, 69999, 70000, 1 << 22}[t.R.Intn(10)]
 				capDst := []int{0, 0, 1024, 8192, 8193, 16384, 131072}[t.R.Intn(7)]
